@@ -179,6 +179,11 @@ def families(thorough):
             s.append(Case(t, stop=stop, stmt_timeout=True))
         s.append(Case(t, stop='X', stmt_timeout=True, mode='session'))
         s.append(Case(t, stop='X', stmt_timeout=True, second=['select']))
+        # ... and the client's socket is already gone when the pooler tries to tell it about the timeout
+        s.append(Case(t, stop='drop', stmt_timeout=True))
+        s.append(Case(t, stop='drop', stmt_timeout=True, mode='session'))
+    for t in (['begin', 'select'], ['begin', 'set', 'select'], ['begin', 'P', 'B', 'E', 'S']):
+        s.append(Case(t, stop='drop', idle_timeout=True))
     F['timeouts'] = s
     # -- a second client after the first: nothing of the first is visible to it
     s = []
